@@ -79,7 +79,8 @@ def parse_url(url: str) -> tuple:
 def _is_ip_address(addr: str) -> bool:
     try:
         socket.inet_aton(addr)
-    except socket.error:
+    except (socket.error, ValueError):
+        # ValueError: embedded null character
         return False
     else:
         return True
